@@ -43,6 +43,7 @@ type LoopContract struct {
 	Decreases  *Clause
 	Modifies   []*Clause
 	Unroll     bool
+	BodyEnsures []*Clause // must hold at every back edge, ghost log indices relative to the loop header
 	ModifiesFresh bool // every byte array allocated by the function before the loop may change in the loop
 }
 
@@ -71,6 +72,7 @@ type FuncContract struct {
 	Lemma      bool // ghost function defined in spec file; verified like code
 	Lets       [][2]string
 	Options    map[string]bool
+	GhostLog   []string  // calls to these functions are recorded in the ghost log instead of being executed
 	Defines    []*Clause // assumed by callers, not an obligation: defines an uninterpreted ghost function by the function's behaviour
 }
 
@@ -83,7 +85,7 @@ type PkgContracts struct {
 	Imports map[string]string // name -> path (union over package files)
 }
 
-var kwRe = regexp.MustCompile(`^(func|lemma|let|option|requires|ensures|defines|canary|modifies|loop|inline|trusted|assumes|returns)\b`)
+var kwRe = regexp.MustCompile(`^(func|lemma|let|option|ghostlog|requires|ensures|defines|canary|modifies|loop|inline|trusted|assumes|returns)\b`)
 
 func parseContractFile(path string, pc *PkgContracts) error {
 	data, err := os.ReadFile(path)
@@ -168,6 +170,10 @@ func parseContractFile(path string, pc *PkgContracts) error {
 					return fmt.Errorf("%s:%d: bad let", path, i+1)
 				}
 				cur.Lets = append(cur.Lets, [2]string{strings.TrimSpace(parts[0]), strings.TrimSpace(parts[1])})
+			case "ghostlog":
+				for _, it := range splitTop(rest, ',') {
+					cur.GhostLog = append(cur.GhostLog, strings.TrimSpace(it))
+				}
 			case "option":
 				if cur.Options == nil {
 					cur.Options = map[string]bool{}
@@ -245,6 +251,10 @@ func parseContractFile(path string, pc *PkgContracts) error {
 				case "invariant":
 					c := &Clause{Kind: "invariant", Text: txt, Line: i + 1, Loop: k}
 					lc.Invariants = append(lc.Invariants, c)
+					last = c
+				case "body-ensures":
+					c := &Clause{Kind: "body-ensures", Text: txt, Line: i + 1, Loop: k}
+					lc.BodyEnsures = append(lc.BodyEnsures, c)
 					last = c
 				case "decreases":
 					lc.Decreases = &Clause{Kind: "decreases", Text: txt, Line: i + 1, Loop: k}
@@ -690,6 +700,9 @@ func genOverlay(pc *PkgContracts, files []*ast.File, specDir string) (string, er
 			}
 			for i, c := range lc.Invariants {
 				emit(c, fmt.Sprintf("govc__%s__l%dinv%d", fc.Mangled, k, i), extra, false)
+			}
+			for i, c := range lc.BodyEnsures {
+				emit(c, fmt.Sprintf("govc__%s__l%dbody%d", fc.Mangled, k, i), extra, false)
 			}
 			if lc.Decreases != nil {
 				c := lc.Decreases
